@@ -289,9 +289,10 @@ func (w *shrinkW) exec(r *hx.Run, f []string) (string, string) {
 		} else {
 			w.m.ForEachKey(func(k int) bool { keys = append(keys, k); return true })
 		}
-		raw := keys
+		if f[0] == "keys" {
+			retainInts("shrink", line, keys)
+		}
 		keys = sortedCopy(keys)
-		scribble(raw)
 		want := make([]int, 0)
 		for k := range w.ref {
 			want = append(want, k)
@@ -305,7 +306,7 @@ func (w *shrinkW) exec(r *hx.Run, f []string) (string, string) {
 	case "values":
 		rawVals := w.m.Values()
 		vals := sortedCopy(rawVals)
-		scribble(rawVals)
+		retainInts("shrink", line, rawVals)
 		want := make([]int, 0)
 		for _, v := range w.ref {
 			want = append(want, v)
@@ -351,13 +352,11 @@ func (w *shrinkW) exec(r *hx.Run, f []string) (string, string) {
 		if showPairs(got) != showPairs(w.ref) {
 			bad(f[0], showPairs(got), showPairs(w.ref))
 		}
-		ans := showPairs(got)
-		for k := range got { // the caller owns the returned map
-			got[k] = -777
+		if f[0] == "asmap" {
+			retainMap("shrink", line, got) // the caller owns the returned map
 		}
-		got[-5] = -777
 
-		return line, ans
+		return line, showPairs(got)
 	case "foreachn", "foreachkeyn":
 		// the callback stops the iteration after n visits (it is always called once on a non-empty map)
 		n := atoi(f[1])
@@ -667,7 +666,7 @@ func (w *rmapW) exec(r *hx.Run, f []string) (string, string) {
 			bad("keys", "len(Keys)", len(keys), len(w.ref))
 		}
 		ans := showInts(keys)
-		defer scribble(keys) // the caller owns the returned slice
+		retainInts("rmap", line, keys) // the caller owns the returned slice
 		// index invariant (white-box): the entry of keys[i] points back at i
 		for i, k := range keys {
 			if idx, ok := w.keyIndex(k); !ok || idx != i {
@@ -680,7 +679,7 @@ func (w *rmapW) exec(r *hx.Run, f []string) (string, string) {
 		if f[0] == "values" {
 			rawVals := w.m.Values()
 			vals := sortedCopy(rawVals)
-			scribble(rawVals)
+			retainInts("rmap", line, rawVals)
 			if showInts(vals) != showInts(w.refValues()) {
 				bad("plain-map", "Values", vals, w.refValues())
 			}
@@ -780,7 +779,7 @@ func (w *rmapW) exec(r *hx.Run, f []string) (string, string) {
 		for _, v := range sorted {
 			l += " " + strconv.Itoa(v)
 		}
-		scribble(vals)
+		retainInts("rmap", l, vals)
 
 		return l, fmt.Sprintf("ok %d", len(vals))
 	}
